@@ -160,21 +160,45 @@ def lean_audit(pid, module, theorems, timeout=900):
     return res, text
 
 
-def forbidden_grep():
-    """Scan lean/TmVerif and lean/drivers (comments stripped) for forbidden tokens."""
+def _module_path(mod):
+    return os.path.join(LEAN_DIR, *mod.split('.')) + '.lean'
+
+
+def import_closure(modules, extra_files=()):
+    """Files of the TmVerif modules transitively imported by `modules` (+ extra files)."""
+    seen = {}
+    todo = [(_module_path(m)) for m in modules] + list(extra_files)
+    while todo:
+        path = todo.pop()
+        if path in seen or not os.path.exists(path):
+            continue
+        src = open(path).read()
+        seen[path] = src
+        for m in re.findall(r'^import\s+(TmVerif[\w.]*)', src, re.M):
+            todo.append(_module_path(m))
+    return seen
+
+
+def forbidden_grep(modules=None, extra_files=()):
+    """Scan the Lean files a property depends on (import closure of its modules and its driver;
+    all of lean/TmVerif and lean/drivers when `modules` is None), comments stripped, for
+    forbidden tokens."""
+    if modules is None:
+        files = {}
+        for root in ('TmVerif', 'drivers'):
+            for dp, _dn, fns in os.walk(os.path.join(LEAN_DIR, root)):
+                for fn in fns:
+                    if fn.endswith('.lean'):
+                        files[os.path.join(dp, fn)] = open(os.path.join(dp, fn)).read()
+    else:
+        files = import_closure(modules, extra_files)
     hits = []
-    for root in ('TmVerif', 'drivers'):
-        for dp, _dn, fns in os.walk(os.path.join(LEAN_DIR, root)):
-            for fn in fns:
-                if not fn.endswith('.lean'):
-                    continue
-                p = os.path.join(dp, fn)
-                src = open(p).read()
-                src = re.sub(r'/-.*?-/', lambda m: '\n' * m.group(0).count('\n'), src, flags=re.S)
-                src = re.sub(r'--[^\n]*', '', src)
-                for m in FORBIDDEN.finditer(src):
-                    hits.append('%s:%d:%s' % (os.path.relpath(p, LEAN_DIR),
-                                              src.count('\n', 0, m.start()) + 1, m.group(0).strip()))
+    for p, src in sorted(files.items()):
+        src = re.sub(r'/-.*?-/', lambda m: '\n' * m.group(0).count('\n'), src, flags=re.S)
+        src = re.sub(r'--[^\n]*', '', src)
+        for m in FORBIDDEN.finditer(src):
+            hits.append('%s:%d:%s' % (os.path.relpath(p, LEAN_DIR),
+                                      src.count('\n', 0, m.start()) + 1, m.group(0).strip()))
     return hits
 
 
